@@ -190,6 +190,12 @@ impl Check for Registries {
     fn components(&self) -> serde_json::Value {
         serde_json::json!({"real": ["rwa::extensions::doc_manager", "rwa::utils::token_binder", "rwa::claim_topics_and_issuers::storage", "rwa::claim_issuer::{allow_key, remove_key, getters}"], "stub": ["YesRegistry (has_claim_topic = true) for the key registry only"]})
     }
+    fn dup_ok(&self, _s: &Step) -> bool {
+        true
+    }
+    fn reorder_ok(&self) -> bool {
+        true
+    }
     fn probes(&self, _prop: &str) -> std::vec::Vec<&'static str> {
         vec!["probe.bucket_boundary_crossed", "probe.issuer_limit_reached", "probe.registry_limit_reached", "probe.topic_limit_reached"]
     }
